@@ -170,3 +170,34 @@ pub fn thin<T: Clone>(v: &[T], max: usize) -> Vec<T> {
 pub fn primes_between(lo: usize, hi: usize) -> Vec<usize> {
     ((lo + 1)..=hi).filter(|&n| is_prime(n as u64)).collect()
 }
+
+/// Lengths just above 2^16 and towards 2^20, one of every plan class: 16-bit index arithmetic (u16/u32 products such
+/// as i*i, gather indexes, quotient estimates) silently changes behaviour there, and nothing below 65536 can see it.
+/// Quick: one prime per class right above 2^16, one composite over a Bluestein prime, two Rader primes far above.
+pub fn beyond_u16(thorough: bool) -> Vec<(usize, &'static str)> {
+    let mut v: Vec<(usize, &'static str)> = vec![
+        (65537, "prime > 2^16: p-1 = 2^16 (Rader everywhere)"),
+        (65539, "prime > 2^16: p-1 has a large factor (Bluestein everywhere)"),
+        (65551, "prime > 2^16: p-1 is 23-smooth (Rader in scalar/SSE)"),
+        (2 * 65539, "2 x Bluestein prime > 2^16"),
+        (147457, "prime 9*2^14+1 (Rader)"),
+        (786433, "prime 3*2^18+1 (Rader, far above 2^16)"),
+    ];
+    if thorough {
+        v.extend_from_slice(&[
+            (66529, "prime > 2^16: p-1 is 11-smooth"),
+            (131101, "prime > 2^17: p-1 is 23-smooth"),
+            (131111, "prime > 2^17: Bluestein"),
+            (139969, "prime > 2^17: p-1 is 3-smooth"),
+            (3 * 65539, "3 x Bluestein prime"),
+            (262147, "prime > 2^18: Bluestein"),
+            (331777, "prime > 2^18: p-1 is 3-smooth"),
+            (524309, "prime > 2^19: Bluestein"),
+            (629857, "prime > 2^19: p-1 is 3-smooth"),
+            (257 * 65537 / 65537 * 66049, "257^2 = 66049 (prime square > 2^16)"),
+            (1048583, "prime > 2^20: Bluestein"),
+            (1179649, "prime 9*2^17+1 (Rader)"),
+        ]);
+    }
+    v
+}
